@@ -41,8 +41,13 @@ func runOpsProp(r *Run, prop string) error {
 	if prop == "C01" || prop == "C05" {
 		insertFamily(r, prop)
 	}
+	var famsSeen []*family
 	for h := 0; h < histories; h++ {
 		f := newFamily(r.Rng)
+		famsSeen = append(famsSeen, f)
+		if prop == "C04" && len(famsSeen) == 8 {
+			defer func(fs []*family) { c04Concurrent(r, fs) }(append([]*family{}, famsSeen...))
+		}
 		if prop == "C01" {
 			// evolve the sibling lineage a little (not emitted), with its own numbering
 			for s := 0; s < 8; s++ {
